@@ -62,3 +62,31 @@ Fixpoint idxl {A} (bad : A -> bool) (i : N) (l : list A) : list N :=
   match l with [] => [] | x :: r => if bad x then i :: idxl bad (i + 1) r else idxl bad (i + 1) r end.
 Definition live_violations (cs : list live_case) : list N := idxl (fun c => negb (lv_committed c && (lv_rounds c <=? lv_bound c))) 0 cs.
 Definition live_mismatches (cs : list live_case) : list N := [].
+
+(* ---- correspondence cases: a synchronous round on real replicas from an injected aligned state (locks on different blocks at
+   different views, real aggregate signatures).  The harness reports the leader the real election produced, the fresh value
+   that leader produced (used only if nobody is locked) and what each correct replica committed. *)
+Record sync_case := mkSync { sy_powers : list N; sy_lru : N; sy_ids : list N; sy_leader : N; sy_fresh : N * N;
+                             sy_reps : list (N * rstate); sy_commits : list (N * (N * N)) }.
+Definition commit_of (l : list (N * (N * N))) (i : N) : option (N * N) :=
+  match find (fun e => fst e =? i) l with Some e => Some (snd e) | None => None end.
+Definition optv_eqb (a b : option (N * N)) : bool :=
+  match a, b with
+  | Some x, Some y => (fst x =? fst y) && (snd x =? snd y)
+  | None, None => true
+  | _, _ => false
+  end.
+Definition sy_agrees (c : sync_case) : bool :=
+  let n' := sync_round (sy_powers c) (sy_lru c) (sy_ids c) (sy_leader c) (sy_fresh c) (mkNet (sy_reps c) []) in
+  forallb (fun i => optv_eqb (commit_of (commits n') i) (commit_of (sy_commits c) i)) (sy_ids c).
+Definition sync_mismatches (cs : list sync_case) : list N := idxl (fun c => negb (sy_agrees c)) 0 cs.
+(* the property on the observation alone: every correct replica committed, all the same value *)
+Definition sy_ok (c : sync_case) : bool :=
+  match sy_ids c with
+  | [] => true
+  | i0 :: _ => match commit_of (sy_commits c) i0 with
+               | None => false
+               | Some v => forallb (fun i => optv_eqb (commit_of (sy_commits c) i) (Some v)) (sy_ids c)
+               end
+  end.
+Definition sync_violations (cs : list sync_case) : list N := idxl (fun c => negb (sy_ok c)) 0 cs.
